@@ -56,6 +56,12 @@ func (m *expirationMap[_]) add(key, conflict uint64, expiration time.Time) {
 	m.Lock()
 	defer m.Unlock()
 
+	// A bucket that has already been swept is never visited again: an entry that is indexed late
+	// (its insert was applied after the sweep passed its bucket) goes to the next bucket to be
+	// swept instead, otherwise it would never be reclaimed.
+	if bucketNum <= m.lastCleanedBucketNum {
+		bucketNum = m.lastCleanedBucketNum + 1
+	}
 	b, ok := m.buckets[bucketNum]
 	if !ok {
 		b = make(bucket)
@@ -84,6 +90,9 @@ func (m *expirationMap[_]) update(key, conflict uint64, oldExpTime, newExpTime t
 	}
 
 	newBucketNum := storageBucket(newExpTime)
+	if newBucketNum <= m.lastCleanedBucketNum {
+		newBucketNum = m.lastCleanedBucketNum + 1
+	}
 	newBucket, ok := m.buckets[newBucketNum]
 	if !ok {
 		newBucket = make(bucket)
